@@ -10,7 +10,7 @@ use serde::{Deserialize, Serialize};
 use simcore::der;
 use simcore::{Alg, Rng};
 
-use crate::engine::{Engine, Outcome, Tier};
+use simcore::engine::{Engine, Outcome, Tier};
 use crate::keys::openssl_verify;
 use crate::signer::{SignerFault, ERR_VARIANTS};
 use crate::sysseam;
@@ -338,6 +338,20 @@ fn scenario(t: &SignTrace, plan: &BTreeMap<usize, SignerFault>, rngf: Option<&Rn
         if let Err((class, detail)) = judge(&w, op, &res, armed && rng_fired, o) {
             o.violate(&class, format!("[{label}] op {i} ({}): {detail}", op.kind()));
             break;
+        }
+        // what a caller does after a failed issuance: try the very same request again.
+        // The retry is an ordinary operation and is judged like one (one signer call over
+        // exactly its to-be-signed bytes, valid signature).
+        if res.calls.iter().any(|c| c.ret.is_err()) || (armed && rng_fired && matches!(res.ret, Ret::Err(_))) {
+            sysseam::count_getrandom();
+            let again = w.exec(op);
+            sysseam::disarm();
+            o.count("retries_after_failure", 1);
+            o.ev(format!("[{label}] {i} retry {} calls={}", op.kind(), again.calls.len()));
+            if let Err((class, detail)) = judge(&w, op, &again, false, o) {
+                o.violate(&class, format!("[{label}] retry of op {i} ({}) after a failed attempt: {detail}", op.kind()));
+                break;
+            }
         }
     }
     {
